@@ -415,3 +415,88 @@ Section Run.
     rewrite Hcs in Hrun. exact Hrun.
   Qed.
 End Run.
+
+Section Run2.
+  Variable b : tbuilder.
+  Variable g : graph.
+  Variable wts : list Z.
+  Variable roots picks : list nat.
+  Hypothesis Hsg : simple_graph g.
+  Hypothesis Hpos : positive_weights g wts.
+  Hypothesis Hr : forall v, v < nv g -> In v roots.
+
+  (* (1) an accepted run emitted a cycle basis of the right size, and the accumulated value is its weight *)
+  Theorem trees_accept_sound cycles total :
+    mcb_sva_trees_accept_Z b g wts roots picks cycles = Some total ->
+    cycle_basis g cycles /\ has_cycle_space_dimension g (length cycles) /\ total = total_weight wts cycles.
+  Proof.
+    intros Hacc. destruct (tr_accept_inv b g wts roots picks cycles total Hacc) as (fi & trees & cands & sup & Hci & Hc & Hrun).
+    pose proof (tr_collection_ok b g wts picks trees cands Hsg Hpos Hc) as Hcol.
+    pose proof (tr_accept_sound_c g wts roots fi trees cands Hsg Hr Hci Hcol cycles) as Hsnd.
+    pose proof (select_none_ok (fi_csd fi)) as Hsel.
+    destruct (sva_generic_basis_c g roots fi Z 0%Z Z.add _ _ cycles total sup Hsg Hr Hci Hsel Hsnd Hrun)
+      as (Hl & Hd & _ & _ & _ & Hind & Hsp).
+    pose proof (sva_run_inv g fi Z 0%Z Z.add _ _ cycles total sup Hsel Hsnd Hrun) as I.
+    assert (Hans : forall k S c w, canonical_witness fi S ->
+              trees_search_accept Z 0%Z Z.add Z.ltb g wts trees cands fi cycles k S = PFound c w ->
+              simple_cycle g c /\ w = weight wts c).
+    { intros k S c w HS H. destruct (tr_accept_answer g wts fi trees cands Hsg Hcol cycles k S c w H) as [_ Ha].
+      destruct (tr_answer_sound g wts roots fi trees cands Hsg Hr Hci S c w HS Ha) as (H1 & _ & H2). auto. }
+    split; [|split; [exact Hd|]].
+    - split; [|split; assumption]. rewrite Forall_forall. intros C HC. apply (In_nth _ _ []) in HC as (j & Hj & <-).
+      assert (Hj' : j < fi_csd fi) by (rewrite <- Hl; exact Hj).
+      destruct (inv_found _ _ _ _ _ _ I j Hj') as (w & Hsr).
+      apply (Hans _ _ _ _ (sva_inv_row _ _ _ _ _ _ j I Hj') Hsr).
+    - unfold sva_run in Hrun.
+      exact (sva_phases_weight g wts select_none _ fi Hsel Hsnd (fun k S c w HS H => proj2 (Hans k S c w HS H))
+               (fi_csd fi) 0 _ [] 0%Z cycles total sup eq_refl (sva_inv_init fi Z _) Hrun eq_refl).
+  Qed.
+
+  (* (2) with the sufficiency premise the accepted basis is a MINIMUM cycle basis *)
+  Theorem trees_accept_min_modulo_sufficiency cycles total :
+    (forall fi trees cands, create_index g roots = Some fi ->
+       tb_collection Z 0%Z Z.add Z.ltb b g wts picks = CdOk (trees, cands) ->
+       collection_sufficient g wts fi trees cands) ->
+    mcb_sva_trees_accept_Z b g wts roots picks cycles = Some total ->
+    min_cycle_basis g wts cycles /\ total = total_weight wts cycles /\ has_cycle_space_dimension g (length cycles).
+  Proof.
+    intros Hsuf Hacc. destruct (tr_accept_inv b g wts roots picks cycles total Hacc) as (fi & trees & cands & sup & Hci & Hc & Hrun).
+    pose proof (tr_collection_ok b g wts picks trees cands Hsg Hpos Hc) as Hcol.
+    pose proof (tr_accept_min_c g wts roots fi trees cands Hsg Hr Hci Hcol cycles (Hsuf fi trees cands Hci Hc)) as Hmin.
+    exact (sva_generic_min_c g wts roots fi _ _ cycles total sup Hsg Hpos Hr Hci (select_none_ok (fi_csd fi)) Hmin Hrun).
+  Qed.
+
+  (* ... and an accepted run exists: the deterministic resolution completes, returns a minimum cycle basis, and its
+     run is accepted by the acceptance model *)
+  Theorem trees_first_total_modulo_sufficiency trees cands :
+    tb_collection Z 0%Z Z.add Z.ltb b g wts picks = CdOk (trees, cands) ->
+    (forall fi, create_index g roots = Some fi -> collection_sufficient g wts fi trees cands) ->
+    exists cycles total sup,
+      mcb_sva_trees_first_Z b g wts roots picks = TRun (SvaOk cycles total sup) /\
+      min_cycle_basis g wts cycles /\ total = total_weight wts cycles /\
+      has_cycle_space_dimension g (length cycles) /\
+      mcb_sva_trees_accept_Z b g wts roots picks cycles = Some total.
+  Proof.
+    intros Hc Hsuf. destruct (create_index_correct g roots Hsg Hr) as (fi & Hci & _).
+    pose proof (tr_collection_ok b g wts picks trees cands Hsg Hpos Hc) as Hcol.
+    pose proof (select_none_ok (fi_csd fi)) as Hsel.
+    pose proof (tr_first_sound_c g wts roots fi trees cands Hsg Hr Hci Hcol) as Hsnd.
+    pose proof (tr_first_total_c g wts roots fi trees cands Hsg Hr Hci Hcol (Hsuf fi Hci)) as Htot.
+    pose proof (tr_first_min_c g wts roots fi trees cands Hsg Hr Hci Hcol (Hsuf fi Hci)) as Hmin.
+    destruct (sva_generic_total_c g roots fi Z 0%Z Z.add _ _ Hsg Hr Hci Hsel Hsnd Htot) as (cycles & total & sup & Hrun).
+    destruct (sva_generic_min_c g wts roots fi _ _ cycles total sup Hsg Hpos Hr Hci Hsel Hmin Hrun) as (Hm & Hw & Hd).
+    exists cycles, total, sup.
+    split; [unfold mcb_sva_trees_first_Z, mcb_sva_trees_first, mcb_sva_trees; rewrite Hci, Hc; rewrite Hrun; reflexivity|].
+    split; [exact Hm|]. split; [exact Hw|]. split; [exact Hd|].
+    unfold mcb_sva_trees_accept_Z, mcb_sva_trees_accept, mcb_sva_trees_replay, mcb_sva_trees. rewrite Hci, Hc.
+    assert (Hrun2 : sva_run Z 0%Z Z.add select_none (trees_search_accept Z 0%Z Z.add Z.ltb g wts trees cands fi cycles) fi
+                    = SvaOk cycles total sup).
+    { unfold sva_run in *. apply (tr_phases_replay Z.add select_none _ _ fi cycles
+                                    (tr_first_replayed g wts fi trees cands Hsg Hcol cycles)); [reflexivity|exact Hrun]. }
+    rewrite Hrun2, Nat.eqb_refl. reflexivity.
+  Qed.
+End Run2.
+
+Print Assumptions trees_accept_sound.
+Print Assumptions trees_accept_min_modulo_sufficiency.
+Print Assumptions trees_first_total_modulo_sufficiency.
